@@ -79,7 +79,7 @@ var (
 
 // ---- the "operating system" trust store of the harness process (C05 components only) ----
 
-var c05Components = []string{"tlscfg", "authmatrix", "tlshist"}
+var c05Components = []string{"tlscfg", "authmatrix", "tlshist", "cafault"}
 
 var (
 	c05SysCA    c05CA  // CA "S": the only system-trusted root of this process
